@@ -57,6 +57,7 @@ def main : IO Unit := do
     chk2 "zoom record: running minimum / maximum" (fun a v => toString [Gen.wzs_min 1 v a a 0, Gen.wzs_max 1 v a a 0, Gen.bzs2_min 1 v a a 0, Gen.bzs2_max 1 v a a 0]) (fun a v => toString ([min a v, max a v, min a v, max a v] : List Int)) "so far, value",
     chk2 "zoom record: fresh record (start, end, min, max, bases)" (fun st v => toString [Gen.wzs_new_start 0 v 0 0 st, Gen.wzs_new_end 0 v 0 0 st, Gen.wzs_new_min 0 v 0 0 st, Gen.wzs_new_max 0 v 0 0 st, Gen.wzs_new_bases 0 v 0 0 st, Gen.bzs2_new_start 0 v 0 0 st, Gen.bzs2_new_end 0 v 0 0 st, Gen.bzs2_new_min 0 v 0 0 st, Gen.bzs2_new_max 0 v 0 0 st, Gen.bzs2_new_bases 0 v 0 0 st]) (fun st v => toString ([st, st, v, v, 0, st, st, v, v, 0] : List Int)) "add_start, value",
     chk2 "staging buffer: reported length (in memory; nothing written)" (fun k _ => toString [Gen.tb_len_inmem (4294967295 + k), Gen.tb_len_inmem k, Gen.tb_len_notstarted]) (fun k _ => toString [4294967295 + k, k, 0]) "staged bytes − (2^32 − 1), -",
+    chk2 "coverage sweeps: bound of the final drain (summary, zoom)" (fun l _ => toString [Gen.bs_final_bound l, Gen.bzs_final_bound l]) (fun _ _ => toString [4294967295, 4294967295]) "chromosome length, -",
     chk2 "bigWig value length" (fun e st => n (Gen.wig_len e st)) (fun e st => n (e - st)) "end, start",
     chk2 "section cut (bigWig), not the last item" (fun k i => s (Gen.wig_cut false k i)) (fun k i => s (decide (k ≥ min i 65535))) "items, items_per_slot",
     chk2 "section cut (bigBed), not the last item" (fun k i => s (Gen.bed_cut false k i)) (fun k i => s (decide (k ≥ min i 65535))) "items, items_per_slot",
